@@ -34,7 +34,7 @@ import (
 // scenarios
 
 type Step struct {
-	Op string `json:"op"` // "ok" | "err" | "cancel"
+	Op string `json:"op"` // "ok" | "err" | "cancel" | "err2"
 	I  int    `json:"i,omitempty"`
 	V  int    `json:"v,omitempty"` // value (ok) or error number (err)
 	// W (op "err"): what the error of the failing call wraps (errors.Is / errors.Unwrap): 0 nothing,
@@ -42,6 +42,10 @@ type Step struct {
 	// error that *looks like* a context error although neither the caller's context nor the one handed
 	// to f has ended. To the library (and to the model: "end i err k") it is an error like any other.
 	W int `json:"w,omitempty"`
+	// err2: calls I and J are released together, failing with errors V and V2, before the next quiescent
+	// point - both workers hold a failure at once (audit C13 F7)
+	J  int `json:"j,omitempty"`
+	V2 int `json:"v2,omitempty"`
 }
 
 type Scenario struct {
@@ -654,6 +658,24 @@ func (e *env) bubble(t *testing.T, sc *Scenario, r *vlib.Rand, maxSteps int, out
 					out.Lines = append(out.Lines, fmt.Sprintf("end %d err %d", st.I, st.V))
 				}
 				return true
+			case "err2":
+				var t1, t2 *call
+				for _, c := range e.calls {
+					if !c.ended && c.idx == st.I && t1 == nil {
+						t1 = c
+					} else if !c.ended && c.idx == st.J && t2 == nil {
+						t2 = c
+					}
+				}
+				e.mu.Unlock()
+				if t1 == nil || t2 == nil || st.I == st.J || !sc.ctxMode() {
+					return false
+				}
+				// both are let go before anything else runs: the two failures are simultaneous
+				t1.gate <- gateRes{err: &callErr{st.V}}
+				t2.gate <- gateRes{err: &callErr{st.V2}}
+				out.Lines = append(out.Lines, fmt.Sprintf("end2 %d err %d %d err %d", st.I, st.V, st.J, st.V2))
+				return true
 			}
 			e.mu.Unlock()
 			return false
@@ -682,6 +704,10 @@ func (e *env) bubble(t *testing.T, sc *Scenario, r *vlib.Rand, maxSteps int, out
 			switch {
 			case sc.ctxMode() && callerCtx.Err() == nil && r.Chance(1, 12):
 				st = Step{Op: "cancel"}
+			case sc.ctxMode() && len(o) >= 2 && r.Chance(1, 8):
+				a := r.Intn(len(o))
+				b := (a + 1 + r.Intn(len(o)-1)) % len(o)
+				st = Step{Op: "err2", I: o[a].idx, V: o[a].idx + 1, J: o[b].idx, V2: o[b].idx + 1}
 			case sc.ctxMode() && r.Chance(1, 6):
 				c := o[r.Intn(len(o))]
 				st = Step{Op: "err", I: c.idx, V: c.idx + 1, W: []int{0, 0, 1, 1, 2}[r.Intn(5)]}
@@ -1074,6 +1100,43 @@ func directedCancelOthers() []Scenario {
 	return out
 }
 
+// directedTwoFailures: two (of the p parked) calls fail at the same quiescent point (audit C13 F7): the
+// model states with two workers holding an error at once - reachable, never produced by one-release-per-
+// action scripts - are now on the implementation side of the inclusion as well. The call must return one
+// of the two errors (whichever won), the remaining parked calls must find their context cancelled, and
+// the observed trace must be a trace of the LTS / the wrapper LTS.
+func directedTwoFailures() []Scenario {
+	var out []Scenario
+	for _, mode := range []string{"dc", "mc"} {
+		for _, pn := range [][3]int{{2, 2, 0}, {2, 4, 0}, {3, 3, 0}, {3, 5, 0}, {3, 6, 0}, {0, 4, 3}, {5, 3, 0}} {
+			p, n, gmp := pn[0], pn[1], pn[2]
+			eff := p
+			if p <= 0 {
+				eff = gmp
+			}
+			if eff > n {
+				eff = n
+			}
+			for pre := 0; pre <= 1 && pre+eff <= n; pre++ {
+				for a := pre; a < pre+eff; a++ {
+					for b := pre; b < pre+eff; b++ {
+						if a == b {
+							continue
+						}
+						sc := Scenario{Kind: "script", Mode: mode, P: p, N: n, Gmp: gmp}
+						for i := 0; i < pre; i++ {
+							sc.Steps = append(sc.Steps, Step{Op: "ok", I: i, V: 100 + i})
+						}
+						sc.Steps = append(sc.Steps, Step{Op: "err2", I: a, V: a + 1, J: b, V2: b + 1})
+						out = append(out, sc)
+					}
+				}
+			}
+		}
+	}
+	return out
+}
+
 func TestVerif(t *testing.T) {
 	env := vlib.GetEnv()
 	res := vlib.NewResult("C13", "script scenarios (every call of f gated, released one at a time in random/late-first order, with failures "+
@@ -1196,6 +1259,13 @@ func TestVerif(t *testing.T) {
 	for _, sc := range directedCancelOthers() {
 		sc := sc
 		res.Count("directed-cancel-others-" + sc.Mode)
+		o := check(t, &sc, nil, m, res)
+		res.Case(sc.key(), nontrivial(&sc, o), nil)
+	}
+	// two calls fail at the same quiescent point
+	for _, sc := range directedTwoFailures() {
+		sc := sc
+		res.Count("directed-two-failures-" + sc.Mode)
 		o := check(t, &sc, nil, m, res)
 		res.Case(sc.key(), nontrivial(&sc, o), nil)
 	}
